@@ -397,3 +397,56 @@ func TestCondProducerConsumer(t *testing.T) {
 		}
 	}
 }
+
+func TestSelectClausesDefaultAndParking(t *testing.T) {
+	for seed := uint64(1); seed <= 300; seed++ {
+		Begin(cfg(seed, int(seed)%NPolicies))
+		data := make(chan int)   // rendezvous
+		buf := make(chan int, 2) // buffered
+		done := make(chan struct{})
+		var got, polled, viaBuf int
+		Run([]func(){
+			func() { // producer: offers each number on either channel
+				for i := 1; i <= 6; i++ {
+					c0, c1, v := data, buf, i
+					switch SelectReady(false, SendCase(c0), SendCase(c1)) {
+					case 0:
+						ChanSendNow(c0, v)
+					case 1:
+						ChanSendNow(c1, v)
+					}
+				}
+				ChanClose(done)
+			},
+			func() { // consumer: takes from both until done and both drained
+				for {
+					c0, c1, c2 := data, buf, done
+					switch SelectReady(false, RecvCase(c0), RecvCase(c1), RecvCase(c2)) {
+					case 0:
+						got += ChanRecvNow(c0)
+					case 1:
+						got += ChanRecvNow(c1)
+						viaBuf++
+					case 2:
+						// drain what is still buffered, without blocking
+						for {
+							if SelectReady(true, RecvCase(c1)) == 0 {
+								got += ChanRecvNow(c1)
+								viaBuf++
+								continue
+							}
+							polled++
+							return
+						}
+					}
+				}
+			},
+		})
+		if got != 21 {
+			t.Fatalf("seed %d: sum %d (via buffer %d)", seed, got, viaBuf)
+		}
+		if polled != 1 {
+			t.Fatalf("seed %d: default clause taken %d times", seed, polled)
+		}
+	}
+}
